@@ -342,3 +342,74 @@ def mutation_keep_rows(c):
         c.assigns(mp)
     from .tables_rows_generic import all_assigns
     all_assigns(c, "mutations", self_)
+
+
+@contract("tables.c", "tsk_individual_table_keep_rows", ["self", "keep", "TSK_UNUSED_options", "ret_id_map"], timeout=40)
+def individual_keep_rows(c):
+    """C13: keep_rows on the individual table, whose ragged `parents` column refers to rows of the same table: a kept
+    row with an out-of-range or dropped parent is rejected (table unchanged); otherwise the table is the sub-list of
+    kept rows and every parent entry is the new index of the individual it names"""
+    from .tables_rows_generic import View, all_assigns
+    self_, keepp, mp = c.arg("self"), c.arg("keep"), c.arg("ret_id_map")
+    h, E = c.old, c.E
+    c.requires(z3.Not(h.isnull(self_)))
+    V = View(h, self_, "individuals")
+    c.requires(V.rep())
+    n = V.n
+    c.requires(z3.Implies(n > 0, z3.And(z3.Not(h.isnull(keepp)), keepp.off == 0, h.len(keepp) >= n)))
+    keep = h.arr(keepp)
+    c.requires(rank_axioms(keep, n))
+    for r in V.ragged:
+        c.requires(newoff_axioms(keep, V.off(r), n))
+    if mp.region is not None:
+        c.requires(z3.Or(h.isnull(mp), z3.And(mp.off == 0, h.len(mp) >= n)))
+    po, pd = V.off("parents"), V.col("parents")
+    ok_entry = lambda x: z3.Or(pd[x] == -1, z3.And(0 <= pd[x], pd[x] < n, keep[pd[x]] != 0))
+    ok_row = lambda q: z3.ForAll([b_], z3.Implies(z3.And(po[q] <= b_, b_ < po[q + 1]), ok_entry(b_)))
+    all_ok = z3.ForAll([i], z3.Implies(z3.And(0 <= i, i < n, keep[i] != 0), ok_row(i)))
+    idm = lambda s: z3.ForAll([i], z3.Implies(z3.And(0 <= i, i < n),
+                                              s.arr(s.local("id_map"))[i] == z3.If(keep[i] != 0, rank(i), -1)))
+    c.loop(0).invariant(lambda s: z3.And(0 <= s.j, s.j <= n, s.ret == 0, idm(s),
+                                         z3.ForAll([i], z3.Implies(z3.And(0 <= i, i < s.j, keep[i] != 0), ok_row(i)))))
+    c.loop(1).invariant(lambda s: z3.And(0 <= s.j, s.j < n, keep[s.j] != 0, s.ret == 0, idm(s), po[s.j] <= s.k, s.k <= po[s.j + 1],
+                                         z3.ForAll([i], z3.Implies(z3.And(0 <= i, i < s.j, keep[i] != 0), ok_row(i))),
+                                         z3.ForAll([b_], z3.Implies(z3.And(po[s.j] <= b_, b_ < s.k), ok_entry(b_)))))
+
+    def unchanged(N):
+        cs = [N.n == V.n]
+        for col in V.fixed:
+            cs.append(z3.ForAll([i], z3.Implies(z3.And(0 <= i, i < n), N.col(col)[i] == V.col(col)[i])))
+        for r in V.ragged:
+            cs.append(N.length(r) == V.length(r))
+            cs.append(z3.ForAll([i], z3.Implies(z3.And(0 <= i, i <= n), N.off(r)[i] == V.off(r)[i])))
+            cs.append(z3.ForAll([b_], z3.Implies(z3.And(0 <= b_, b_ < V.length(r)), N.col(r)[b_] == V.col(r)[b_])))
+        return z3.And(*cs)
+
+    def sublist(N):
+        cs = [N.n == rank(n), N.rep()]
+        for col in V.fixed:
+            cs.append(z3.ForAll([i], z3.Implies(z3.And(0 <= i, i < n, keep[i] != 0), N.col(col)[rank(i)] == V.col(col)[i])))
+        for r in V.ragged:
+            no = newoff_of(V.off(r))
+            old = V.col(r)
+            val = (lambda x: z3.If(x == -1, -1, rank(x))) if r == "parents" else (lambda x: x)
+            cs.append(N.length(r) == no(n))
+            cs.append(z3.ForAll([i], z3.Implies(z3.And(0 <= i, i < n, keep[i] != 0), z3.And(
+                N.off(r)[rank(i)] == no(i),
+                z3.ForAll([b_], z3.Implies(z3.And(0 <= b_, b_ < V.off(r)[i + 1] - V.off(r)[i]),
+                                           N.col(r)[no(i) + b_] == val(old[V.off(r)[i] + b_])))))))
+        return z3.And(*cs)
+
+    def post():
+        N = View(c.new, self_, "individuals")
+        return z3.And(z3.Implies(c.result == 0, z3.And(all_ok, sublist(N))),
+                      z3.Implies(c.result != 0, z3.And(unchanged(N), N.rep())))
+    c.ensures(post, "sublist_with_parents_remapped_or_unchanged")
+    c.ensures(lambda: z3.Implies(z3.Not(all_ok), c.result != 0), "dangling_or_out_of_range_parent_rejected")
+    c.ensures(lambda: z3.Or(c.result == 0, c.result == E.TSK_ERR_INDIVIDUAL_OUT_OF_BOUNDS,
+                            c.result == E.TSK_ERR_KEEP_ROWS_MAP_TO_DELETED, c.result == E.TSK_ERR_NO_MEMORY), "codes")
+    if mp.region is not None:
+        c.ensures(lambda: z3.Implies(z3.And(z3.Not(h.isnull(mp)), c.result == 0), z3.ForAll([i], z3.Implies(
+            z3.And(0 <= i, i < n), c.new.arr(mp)[i] == z3.If(keep[i] != 0, rank(i), -1)))), "id_map_is_rank_or_null")
+        c.assigns(mp)
+    all_assigns(c, "individuals", self_)
